@@ -9,6 +9,7 @@
 package main
 
 import (
+	"bytes"
 	"context"
 	"encoding/binary"
 	"encoding/json"
@@ -237,8 +238,11 @@ func main() {
 		base := filepath.Join(work, fmt.Sprintf("%s.shard%d", *prop, i))
 		code := outs[i].code
 		if code == 3 { // watchdog
-			inflight := filepath.Join(work, *prop+".inflight.json")
+			inflight := filepath.Join(work, fmt.Sprintf("%s.shard%d.inflight.json", *prop, i))
 			why, _ := os.ReadFile(strings.TrimSuffix(inflight, ".json") + ".why")
+			if len(failures) > 0 {
+				continue // a violation is already established; no need to re-run more shards
+			}
 			f, confirmed, note := confirmHang(bin, inflight, work, *prop)
 			if confirmed {
 				failures = append(failures, f)
@@ -250,6 +254,7 @@ func main() {
 			// shards have finished; only if the watchdog fires again does the
 			// check end as inconclusive.
 			fmt.Printf("NOTE property=%s shard %d: watchdog fired (%s) but the case did not reproduce alone (%s); running the shard again\n", *prop, i, strings.TrimSpace(string(why)), note)
+			firstCase, _ := os.ReadFile(inflight)
 			_ = os.Remove(inflight)
 			rctx, rcancel := context.WithTimeout(context.Background(), timeout)
 			code, outs[i].log = run(rctx, bin, shardArgs(i), work)
@@ -257,7 +262,22 @@ func main() {
 			outs[i].code = code
 			if code == 3 {
 				why2, _ := os.ReadFile(strings.TrimSuffix(inflight, ".json") + ".why")
+				secondCase, _ := os.ReadFile(inflight)
 				if f2, confirmed2, note2 := confirmHang(bin, inflight, work, *prop); confirmed2 {
+					failures = append(failures, f2)
+				} else if bytes.Equal(firstCase, secondCase) && len(firstCase) > 0 && strings.Contains(string(why), "guarded call running") && strings.Contains(string(why2), "guarded call running") {
+					// The same case did not return within the limit in two
+					// independent runs of this shard, while it returns at once
+					// when it runs alone: the call depends on what the process
+					// did before (a lock left held, a table that filled up).
+					// Deterministic, so not a matter of load: a violation, with
+					// the whole shard as its reproduction.
+					f2.Property = *prop
+					f2.Kind = "hang"
+					if f2.Signature == "" {
+						f2.Signature = "hang-after-history"
+					}
+					f2.Message = fmt.Sprintf("a library call made for this case did not return within the limit in two runs of shard %d of %d (seed %d), and returns at once when the case runs alone: it hangs only after what the process did before. Reproduce with VERIF_SEED=%d ./check %s %s; the replay file holds the case that was in flight.", i, shards, seed, seed, *prop, *tier)
 					failures = append(failures, f2)
 				} else {
 					infra = append(infra, fmt.Sprintf("shard %d: watchdog fired twice (%s / %s) but the cases did not reproduce alone (%s)", i, strings.TrimSpace(string(why)), strings.TrimSpace(string(why2)), note2))
